@@ -83,6 +83,7 @@ fn main() {
         engines::dump(&ctx, n, p);
         return;
     }
+    engine::TRACE_PANICS.store(trace && !args.iter().any(|a| a == "--no-panic-trace"), std::sync::atomic::Ordering::Relaxed);
     install_panic_hook();
     let hang_ms = arg(&args, "--hang-ms").and_then(|s| s.parse().ok()).unwrap_or(20_000);
     start_watchdog(current, hang_ms);
